@@ -71,11 +71,12 @@ type ContractSet struct {
 	Specs map[string]*SpecFunc     // key: name (global namespace; pkg specs may shadow by pkgpath+"::"+name)
 	Wild  []*FuncContract          // contracts whose name contains the wildcard '%'
 	Lemmas []*SpecFunc             // spec-level lemmas (Body must be valid for all parameter values)
+	UFuns  map[string]*SpecFunc    // uninterpreted spec functions / predicates
 	Files []string
 }
 
 func NewContractSet() *ContractSet {
-	return &ContractSet{Funcs: map[string]*FuncContract{}, Specs: map[string]*SpecFunc{}}
+	return &ContractSet{Funcs: map[string]*FuncContract{}, Specs: map[string]*SpecFunc{}, UFuns: map[string]*SpecFunc{}}
 }
 
 var labelRe = regexp.MustCompile(`^\[([A-Za-z0-9_.\-]+)\]\s*`)
@@ -227,6 +228,14 @@ func (cs *ContractSet) LoadContractFile(path, pkgPath string, repoStyle bool) er
 			}
 			sf.PkgPath = pkgPath
 			cs.Specs[sf.Name] = sf
+			cur, curFnSpec = nil, nil
+		case "ufun":
+			sf, err := parseSpecFunc(rest + " = true")
+			if err != nil {
+				return fail(err)
+			}
+			sf.PkgPath = pkgPath
+			cs.UFuns[sf.Name] = sf
 			cur, curFnSpec = nil, nil
 		case "lemma":
 			sf, err := parseSpecFunc(rest)
